@@ -9,7 +9,7 @@ use crate::DYNERR;
 
 struct Substitutor {
     line: String,
-    delta: usize,
+    delta: isize,
     build: String,
     search: Vec<String>,
     replace: Vec<String>,
@@ -37,7 +37,8 @@ impl Substitutor {
 impl Navigate for Substitutor {
     fn visit(&mut self,curs: &tree_sitter::TreeCursor) -> Result<Navigation,DYNERR> {
         let txt = node_text(&curs.node(),&self.line);
-        let curr_len = curs.node().start_position().column + self.delta;
+        // the replacement can be shorter than the placeholder, so the offset can be negative
+        let curr_len = (curs.node().start_position().column as isize + self.delta).max(0) as usize;
         if curr_len > self.build.len() {
             self.build += &" ".repeat(curr_len - self.build.len());
         }
@@ -45,7 +46,7 @@ impl Navigate for Substitutor {
             if curs.node().kind() == self.types[i] &&  txt == self.search[i] {
                 self.matched_args.insert(i);
                 self.build += &self.replace[i];
-                self.delta += self.replace[i].len() - self.search[i].len();
+                self.delta += self.replace[i].len() as isize - self.search[i].len() as isize;
                 return Ok(Navigation::GotoSibling);
             }
         }
